@@ -30,6 +30,7 @@ RULE = ('case = generated repository with the standard layout (portable names, n
 ANCHORS = ['cli:UpdateCommand.__call__', 'cli:VerifyCommand.__call__',
            'recursiveloader:ManifestRecursiveLoader.save_manifests']
 REQUIRED = ['script_runs:meta', 'script_runs:single', 'verified_after_script',
+            'regenerations',
             'noop_updates_checked', 'edit_updates_checked']
 ASSUMPTIONS = ['the scripts are run with the tree under test first on PYTHONPATH and the '
                'same interpreter', 'the standard directories the meta script hard-codes '
@@ -237,6 +238,29 @@ def judge(ctx, root, case):
         ctx.violation('script-coverage:' + findings[0][0], 'generated Manifests: %r'
                       % (findings[:3],), case, detail)
         return
+    if case.get('regen'):
+        # the generator is run again on its own output (regeneration after a change)
+        victims = sorted(os.path.relpath(os.path.join(dp, f), troot)
+                         for dp, dn, fn in os.walk(troot) for f in fn
+                         if not f.startswith('Manifest') and not f.startswith('.')
+                         and not f.startswith('timestamp'))
+        if victims:
+            with open(os.path.join(troot, victims[case['pick'] % len(victims)]),
+                      'ab') as fh:
+                fh.write(b'changed before regeneration')
+        if mode == 'single':
+            rc, out = run_script('gen_fast_manifest.py', troot)
+        else:
+            rc, out = run_script('gen_fast_metamanifest.py', root)
+        ctx.count('regenerations')
+        detail = {'script_output': out, 'regeneration': True}
+        vr = gemato_cli(['verify', '-P', troot]) if rc == 0 else 'script rc %d' % rc
+        findings = update_post.check(troot, 'Manifest', '', H) if vr == 0 else []
+        if rc != 0 or vr != 0 or findings:
+            ctx.violation('regenerated-output-wrong:' + mode, 'second run of the fast '
+                          'generator on its own output: script rc %r, verify %r, %r'
+                          % (rc, vr, findings[:2]), case, detail)
+            return
     # ---- no-op update
     nested_files = mode == 'single' and any(
         os.path.isdir(os.path.join(troot, 'files', x))
@@ -291,6 +315,7 @@ def run_unit(u, ctx):
         case = {'kind': 'c20', 'tree': tree,
                 'mode': 'single' if rng.random() < 0.35 else 'meta',
                 'pre': rng.random() < 0.5, 'pre_seed': rng.randrange(1 << 30),
+                'regen': rng.random() < 0.35,
                 'pick': rng.randrange(1 << 20),
                 'edits': [{'kind': rng.choice(['change', 'add', 'delete', 'change', 'add',
                                                'delete', 'new-package']),
